@@ -27,6 +27,10 @@ def neg_pi_to_pi(angle):
     # Always work in double precision (a single-precision angle would otherwise be wrapped in single precision)
     angle = np.float64(angle)
 
+    # An angle that is already in range is kept as is: adding and subtracting pi would discard everything below ulp(pi)
+    if np.ndim(angle) == 0 and -np.pi <= angle < np.pi:
+        return angle
+
     return (angle + np.pi) % (TWO_PI) - np.pi
 
 
